@@ -15,14 +15,15 @@ from vf.common import REPO, VERIF, assume, exception_key, fail
 import harness.C03 as c03
 import harness.C15 as c15
 
+from vf.models import XSD_ROOT_ELEMENT
+
 PROPERTY = "C02"
 LEVEL = "model_checking"
 
 _JSON_SNIPPETS = {specific_implementations.ImplementationKey("schema_base.json"):
                   Stripped('{"$schema": "https://json-schema.org/draft/2019-09/schema", "title": "T", "type": "object"}')}
 _XSD_SNIPPETS = {specific_implementations.ImplementationKey("root_element.xml"):
-                 Stripped('<xs:element name="something" xmlns:xs="http://www.w3.org/2001/XMLSchema" '
-                          'xmlns="https://example.invalid/verif"/>')}
+                 Stripped(XSD_ROOT_ELEMENT)}
 
 
 def check_schema_generators(name: str, ops: List[int], orders: List[bool], consts: List[Any]) -> str:
@@ -66,7 +67,7 @@ def make_harness(params: Dict[str, Any]):
                     assume(orders_in[i] and consts[i] == 0)
                     orders.append(True)
                 else:
-                    assume(-2 <= consts[i] <= 8)
+                    assume(params["lo"] <= consts[i] <= params["hi"])
                     orders.append(True if orders_in[i] else False)
             return check_schema_generators(name, fixed_ops, orders, consts)
 
@@ -82,9 +83,12 @@ def shards(tier: str) -> List[Dict[str, Any]]:
         if name.startswith("unrecognised"):
             continue
         combos = [list(t) + [0] * (3 - k) for t in itertools.product((0, 2, 4) if tier == "quick" else range(6), repeat=k)]
+        if tier == "quick" and k == 3:
+            combos = [c for c in combos if c in ([0, 0, 0], [0, 2, 4], [4, 4, 0], [2, 0, 4], [4, 2, 2], [0, 4, 4])]
+        lo, hi = (-1, 3) if tier == "quick" else (-2, 8)
         for ops in combos:
             out.append({"name": f"schema-generators:{name},ops=" + " ".join(c15.OP_NAMES[o] for o in ops[:k]),
-                        "params": {"kind": "schema", "template": name, "slots": k, "ops": ops},
+                        "params": {"kind": "schema", "template": name, "slots": k, "ops": ops, "lo": lo, "hi": hi},
                         "budget_s": 120 if tier == "quick" else 900, "per_path_timeout": 60})
     for target in c03.LANG_TARGETS + c03.SCHEMA_TARGETS:
         out.append({"name": f"driver:{target}", "params": {"kind": "driver", "c03": {"kind": "target", "target": target, "lens": [1],
@@ -137,7 +141,7 @@ def describe(tier: str) -> Dict[str, Any]:
                       "aas_core_codegen.xsd.main._generate"] + [f"aas_core_codegen.{t}.main.execute" for t in
                                                                 c03.LANG_TARGETS + c03.SCHEMA_TARGETS] + ["aas_core_codegen.main.execute"],
         "bounds": "(a) the six length-constraint templates of C15 (own / optional / list / inheritance chain / constrained-primitive chain) with "
-                  "symbolic comparison constants in [-2, 8], operand orders symbolic, comparators per shard: the real inference, "
+                  "symbolic comparison constants in [-1, 3] (thorough [-2, 8]), operand orders symbolic, comparators per shard: the real inference, "
                   "jsonschema.generate and xsd._generate must return (result | errors) and never raise; (b) every <target>/main.py driver with "
                   "a symbolic failing generator step, failing file operation (OSError or UnicodeEncodeError) or bad snippet: no exception, "
                   "status/report contract as C03; (c) concretely, every corpus model through the real main.execute for all eight targets",
